@@ -533,9 +533,10 @@ struct reb_simulation {
     double walltime_last_steps;     // Average wall time of last step (updated every 0.1s).
     double walltime_last_steps_sum;
     int walltime_last_steps_N;
+    // Note: the order (t, l, m) matches the Python class Simulation and the bytes that binary field ids 130, 131, 132 refer to.
+    uint32_t python_unit_t;         // Only used for when working with units in python.
     uint32_t python_unit_l;         // Only used for when working with units in python.
     uint32_t python_unit_m;         // Only used for when working with units in python.
-    uint32_t python_unit_t;         // Only used for when working with units in python.
     
     // Simulation domain and ghost boxes 
     struct  reb_vec3d boxsize;      // Size of the entire simulation box, root_x*boxsize. Set in box_init().
